@@ -291,6 +291,21 @@ impl ConnectionState {
             forall|o: ServiceCookie| #![trigger final(self).ev(o)] #![trigger old(self).ev(o)] final(self).ev(o) == old(self).ev(o),
             old(self).inv() ==> final(self).inv(),
     //@end
+
+    // (closures inlined by the extractor, normalisation N11)
+    //@fn broker/src/broker/conn_state.rs ConnectionState::call_data option-map
+        ensures
+            match r {
+                Some(d) => self.calls@.contains_key(caller_serial) && d.0 == self.calls@[caller_serial].0
+                    && *d.1 == self.calls@[caller_serial].1,
+                None => !self.calls@.contains_key(caller_serial),
+            },
+    //@end
+
+    // subscribed to all events of the service or to this event
+    //@fn broker/src/broker/conn_state.rs ConnectionState::is_subscribed_to_event option-map
+        ensures r == (self.all_events@.contains(svc_cookie) || self.ev(svc_cookie).contains(event)),
+    //@end
 }
 
 } // verus!
